@@ -147,6 +147,27 @@ func buildKinds() []kind {
 		{Name: "number-object", Expr: `new Number(7)`, Home: "number"},
 		{Name: "boolean-object", Expr: `new Boolean(false)`, Home: "boolean"},
 		{Name: "arguments", Expr: `(function(){return arguments})(1,"b",[3])`, Home: "object", Hostile: true},
+		// values with a multi-step history (internal state left behind by refused or unusual operations)
+		{Name: "hist-shrink-refused", Expr: `(function(){var a=[1,2,3];Object.defineProperty(a,"1",{configurable:false,value:1});a.length=0;return a})()`, Home: "array", Hostile: true},
+		{Name: "hist-shrink-refused-caught", Expr: `(function(){var a=[1,2,3,4];Object.defineProperty(a,"2",{configurable:false,value:1});try{Object.defineProperty(a,"length",{value:1})}catch(e){}return a})()`, Home: "array", Hostile: true},
+		{Name: "hist-shrink-refused-strict", Expr: `(function(){"use strict";var a=[1,2,3];Object.defineProperty(a,"0",{configurable:false,value:1});try{a.length=0}catch(e){}return a})()`, Home: "array", Hostile: true},
+		{Name: "hist-shrink-refused-readonly", Expr: `(function(){var a=[1,2,3];Object.defineProperty(a,"1",{configurable:false,value:1});try{Object.defineProperty(a,"length",{value:0,writable:false})}catch(e){}return a})()`, Home: "array", Hostile: true},
+		{Name: "hist-frozen-then-written", Expr: `(function(){var a=Object.freeze([1,2]);a[0]=9;a[5]=1;a.length=0;try{a.push(1)}catch(e){}try{a.pop()}catch(e){}return a})()`, Home: "array", Hostile: true},
+		{Name: "hist-sealed-then-length-set", Expr: `(function(){var a=Object.seal([1,2,3]);a.length=1;try{a.length=5}catch(e){}try{a.shift()}catch(e){}return a})()`, Home: "array", Hostile: true},
+		{Name: "hist-grown-max-then-shrunk", Expr: `(function(){var a=[1,2];a.length=4294967295;try{a.push(1)}catch(e){}a.length=2;return a})()`, Home: "array", Hostile: true},
+		{Name: "hist-index-max", Expr: `(function(){var a=[1];a[4294967294]=1;a.length=3;a[4294967295]=2;return a})()`, Home: "array", Hostile: true},
+		{Name: "hist-sparse-after-delete", Expr: `(function(){var a=[1,2,3,4];delete a[1];delete a[3];a.length=3;a.length=6;return a})()`, Home: "array", Hostile: true},
+		{Name: "hist-ro-length-then-push", Expr: `(function(){var a=[1];Object.defineProperty(a,"length",{writable:false});try{a.push(2)}catch(e){}a[5]=1;try{a.unshift(0)}catch(e){}return a})()`, Home: "array", Hostile: true},
+		{Name: "hist-length-odd-values", Expr: `(function(){var a=[1,2,3];a.length="2";a.length=new Number(1);try{a.length=1.5}catch(e){}try{a.length=-1}catch(e){}a.length={valueOf:function(){return 2}};return a})()`, Home: "array", Hostile: true},
+		{Name: "hist-accessor-data-flips", Expr: `(function(){var o={a:1,b:2};delete o.a;o.a=3;Object.defineProperty(o,"b",{get:function(){return 1},configurable:true});Object.defineProperty(o,"b",{value:2});Object.defineProperty(o,"a",{set:function(v){}});Object.defineProperty(o,"a",{writable:true});return o})()`, Home: "object", Hostile: true},
+		{Name: "hist-array-index-accessor-flips", Expr: `(function(){var a=[1,2,3];Object.defineProperty(a,"0",{get:function(){return 7},configurable:true});Object.defineProperty(a,"0",{value:1});Object.defineProperty(a,"5",{set:function(v){},configurable:true});delete a[5];a.length=2;return a})()`, Home: "array", Hostile: true},
+		{Name: "hist-regexp-used", Expr: `(function(){var r=/a(b)?/g;r.exec("aab");r.lastIndex="1";r.test("ab");r.compile("b(c)","i");r.lastIndex=-1;return r})()`, Home: "regexp", Hostile: true},
+		{Name: "hist-date-set-nan", Expr: `(function(){var d=new Date(0);d.setTime(NaN);d.setFullYear(2000);d.setMonth(1e9);d.setYear(99);return d})()`, Home: "date", Hostile: true},
+		{Name: "hist-string-object-extras", Expr: `(function(){var s=new String("abc");s[5]="x";s.length=9;try{s[0]="z"}catch(e){}delete s[5];s.foo=1;return s})()`, Home: "string", Hostile: true},
+		{Name: "hist-arguments-redefined", Expr: `(function(a,b){Object.defineProperty(arguments,"0",{get:function(){return 5},configurable:true});a=2;Object.defineProperty(arguments,"length",{value:7});delete arguments[1];b=3;return arguments})(1,2,3)`, Hostile: true},
+		{Name: "hist-function-props", Expr: `(function(){var f=function(a,b){};f.prototype=null;try{f.length=9}catch(e){}delete f.prototype;Object.defineProperty(f,"name",{value:1,configurable:true});f.caller;return f})()`, Home: "function", Hostile: true},
+		{Name: "hist-error-props", Expr: `(function(){var e=new TypeError("m");delete e.message;e.name=undefined;e.stack;try{e.stack=1}catch(x){}Object.defineProperty(e,"message",{get:function(){return "g"}});return e})()`, Home: "error", Hostile: true},
+		{Name: "hist-proto-swapped", Expr: `(function(){var a=[1,2];var o=Object.create(a);o.length=5;o[7]=1;Array.prototype.push.call(o,1);return o})()`, Hostile: true},
 		{Name: "arguments-mapped", Expr: `(function(a,b){b=9;delete arguments[0];arguments.length=5;return arguments})(1,2,3)`, Hostile: true},
 
 		// O: programmable conversions
